@@ -481,7 +481,25 @@ func (c *Client) TxSearch(
 	page, perPage *int,
 	orderBy string,
 ) (*ctypes.ResultTxSearch, error) {
-	return c.next.TxSearch(ctx, query, prove, page, perPage, orderBy)
+	res, err := c.next.TxSearch(ctx, query, prove, page, perPage, orderBy)
+	if err != nil || !prove {
+		return res, err
+	}
+
+	// Verify every hit the way Tx does.
+	for _, tx := range res.Txs {
+		if tx == nil || tx.Height <= 0 {
+			return nil, errNegOrZeroHeight
+		}
+		l, err := c.updateLightClientIfNeededTo(ctx, &tx.Height)
+		if err != nil {
+			return nil, err
+		}
+		if err := validateTxProof(tx, l); err != nil {
+			return nil, err
+		}
+	}
+	return res, nil
 }
 
 func (c *Client) BlockSearch(
